@@ -18,3 +18,7 @@ add("C18", "property-based testing (Hypothesis): per-class predicate model + met
     "Generated-input search over event frames (encoded / decoded names, str and object dtype, optional columns) x every filter class x parameters x compositions of 0-4 members: selected ids, order, row contents and columns equal the pure-Python predicate model; the input frame equals a deep copy taken before the call; composite == sequential application == intersection (row-local members, every drawn order); f(f(x)) == f(x).",
     "Trusts the predicate model in hv/props/c18.py (regex match from the start of the name; documented identities for missing columns and all -1 iterations); hand-built frames of <= 12 rows.",
     "DESIGN.md §5 C18")
+add("C02", "property-based testing (Hypothesis) with fault injection against a dictionary-join reference model",
+    "Generated-input search over simulated Kineto traces with injected faults (dropped launch, dropped activity, stripped correlation id, dropped sync record): every row's link is compared with a pure-Python join over the raw entries, and the 'never' clauses (same id, opposite sides, mutual, sentinel meaning) are asserted directly on every link.",
+    "Trusts hv/model/raw.py (side rule: stream >= 0 with an id, or Event/Context Sync record); correlation ids unique per pair by construction.",
+    "DESIGN.md §5 C02")
